@@ -190,6 +190,18 @@ ExecOf(result) ==
     LET units == SelectSeq(result, LAMBDA n : n[1] \in {"model", "evo"})
     IN RunBatches(Build(units, [models |-> <<>>, evos |-> <<>>], <<>>))
 
+(* C18 across evolutions and apps: one AppMutator run - hence one rebuild of a table for all its
+   mergeable changes - per BATCH in which a task has evolutions *)
+BatchesOf(result) ==
+    LET units == SelectSeq(result, LAMBDA n : n[1] \in {"model", "evo"})
+    IN Build(units, [models |-> <<>>, evos |-> <<>>], <<>>)
+NBatches(bs, a) == Cardinality({ i \in 1..Len(bs) : \E j \in 1..Len(bs[i].evos) : bs[i].evos[j][2] = a })
+(* the evolutions of task a are contiguous in the order, apart from model creations *)
+Contiguous(result, a) ==
+    LET es == SelectSeq(result, LAMBDA n : n[1] = "evo")
+    IN \A i, j \in 1..Len(es) : (i < j /\ es[i][2] = a /\ es[j][2] = a) =>
+          \A k \in i..j : es[k][2] = a
+
 (* projects sampled by the harness beyond the exhaustive bound *)
 FileCfgs == JsonDeserialize(IOEnv.CFG_FILE)
 PairSet(s) == { <<s[i][1], s[i][2]>> : i \in 1..Len(s) }
@@ -245,6 +257,10 @@ InvRespected == (ord.ok /\ ~Unsatisfiable) => (EveryUnitOnce /\ Respected)
 InvReported  == Unsatisfiable => ~ord.ok
 InvNoFalseRejection == (~Unsatisfiable /\ Dangling = {}) => ord.ok
 
+(* C18: a task whose evolutions are not interleaved with another task's gets ONE batch *)
+InvOneBatchUnlessInterleaved ==
+    ord.ok => \A a \in Apps : (pending[a] > 0 /\ Contiguous(ord.result, a)) => NBatches(BatchesOf(ord.result), a) = 1
+
 Violations == { c \in {"InvRespected", "InvReported", "InvNoFalseRejection"} :
                   CASE c = "InvRespected" -> ~InvRespected
                     [] c = "InvReported" -> ~InvReported
@@ -256,6 +272,8 @@ Emit == (EmitRecords /\ TLCGet("level") = 1) =>
                                    eafter |-> eafter,
                                    ok |-> ord.ok,
                                    executed |-> exe,
+                                   nbatches |-> IF ord.ok THEN [a \in Apps |-> NBatches(BatchesOf(ord.result), a)]
+                                                ELSE [a \in Apps |-> 0],
                                    unsat |-> Unsatisfiable,
                                    dangling |-> Dangling # {},
                                    viol |-> Violations])>>)
